@@ -311,10 +311,105 @@ static ssize_t sendfile_hook(const char* name, int out, int in, off_t* off, size
 extern "C" ssize_t sendfile(int out, int in, off_t* off, size_t count) { return sendfile_hook("sendfile", out, in, off, count); }
 extern "C" ssize_t sendfile64(int out, int in, off64_t* off, size_t count) { return sendfile_hook("sendfile64", out, in, (off_t*)off, count); }
 
+// ---- a system call of Directory::unlink / purge that fails (fault oracle) ---------------------------
+// `fault n` arms the next dunlink / purge: the (n+1)-th of the calls rmdir / unlink / opendir / readdir
+// that the library makes during that operation fails with EIO.  While armed, readdir hands the
+// entries out in a fixed order ("." and ".." first, then by name) - any order is a legal kernel, and
+// the generators create the entries in that order, which is the order the model enumerates them in -
+// so that what has been removed before the failing call is the same on both sides.
+static bool lib_active = false;     // inside the library call of a dunlink / purge
+static long fault_at = -1, fault_cnt = 0;
+static bool fault_tick() { if(!lib_active || fault_at < 0) return false; return fault_cnt++ == fault_at; }
+
+struct Shim { DIR* dp; struct dirent* ents; size_t n, i; };
+static Shim shims[64]; static int shim_n;
+static int dirent_cmp(const void* a, const void* b)
+{
+  const char* x = ((const struct dirent*)a)->d_name; const char* y = ((const struct dirent*)b)->d_name;
+  int rx = !strcmp(x, ".") ? 0 : !strcmp(x, "..") ? 1 : 2, ry = !strcmp(y, ".") ? 0 : !strcmp(y, "..") ? 1 : 2;
+  if(rx != ry) return rx - ry;
+  return strcmp(x, y);
+}
+typedef struct dirent* (*readdir_fn)(DIR*);
+static struct dirent* readdir_hook(const char* name, DIR* dp)
+{
+  readdir_fn real = (readdir_fn)dlsym(RTLD_NEXT, name);
+  if(!lib_active || fault_at < 0) return real(dp);
+  if(fault_tick()) { errno = EIO; return 0; }
+  Shim* s = 0;
+  for(int i = 0; i < shim_n; ++i) if(shims[i].dp == dp) s = &shims[i];
+  if(!s) {
+    if(shim_n == 64) _exit(3);
+    s = &shims[shim_n++]; s->dp = dp; s->n = s->i = 0; s->ents = 0;
+    size_t cap = 0; int keep = errno; struct dirent* e;
+    while((e = real(dp))) {
+      if(s->n == cap) { cap = cap ? 2 * cap : 16; s->ents = (struct dirent*)realloc(s->ents, cap * sizeof(struct dirent)); }
+      memcpy(&s->ents[s->n++], e, sizeof(struct dirent));
+    }
+    errno = keep;
+    if(s->n) qsort(s->ents, s->n, sizeof(struct dirent), dirent_cmp);
+  }
+  return s->i < s->n ? &s->ents[s->i++] : 0;
+}
+static void shims_clear() { for(int i = 0; i < shim_n; ++i) free(shims[i].ents); shim_n = 0; }
+extern "C" struct dirent* readdir(DIR* dp) { return readdir_hook("readdir", dp); }
+extern "C" struct dirent64* readdir64(DIR* dp) { return (struct dirent64*)readdir_hook("readdir64", dp); }
+extern "C" int closedir(DIR* dp)
+{
+  typedef int (*fn)(DIR*); fn real = (fn)dlsym(RTLD_NEXT, "closedir");
+  for(int i = 0; i < shim_n; ++i) if(shims[i].dp == dp) { free(shims[i].ents); shims[i] = shims[--shim_n]; break; }
+  return real(dp);
+}
+extern "C" DIR* opendir(const char* path)
+{
+  typedef DIR* (*fn)(const char*); fn real = (fn)dlsym(RTLD_NEXT, "opendir");
+  if(fault_tick()) { errno = EIO; return 0; }
+  return real(path);
+}
+extern "C" int rmdir(const char* path)
+{
+  typedef int (*fn)(const char*); fn real = (fn)dlsym(RTLD_NEXT, "rmdir");
+  if(fault_tick()) { errno = EIO; return -1; }
+  return real(path);
+}
+extern "C" int unlink(const char* path)
+{
+  typedef int (*fn)(const char*); fn real = (fn)dlsym(RTLD_NEXT, "unlink");
+  if(fault_tick()) { errno = EIO; return -1; }
+  return real(path);
+}
+
+static Directory* dirs[4];
+
+static int ent_cmp(const void* a, const void* b) { return strcmp(*(char* const*)a, *(char* const*)b); }
+// read() until it says false: the entries as <hex name>:d / :f, sorted; then how many of two more reads say true
+static void read_all(Directory& d)
+{
+  char** v = 0; size_t n = 0, cap = 0;
+  String name; bool isDir = false;
+  while(d.read(name, isDir)) {
+    if(n == cap) { cap = cap ? 2 * cap : 16; v = (char**)realloc(v, cap * sizeof(char*)); }
+    size_t l = name.length(); char* t = (char*)malloc(2 * l + 8); t[0] = 0;
+    if(l == 0) strcpy(t, "-"); else for(size_t i = 0; i < l; ++i) sprintf(t + 2 * i, "%02x", (unsigned char)((const char*)name)[i]);
+    strcat(t, isDir ? ":d" : ":f");
+    v[n++] = t;
+    if(n > 100000) break;
+  }
+  if(n) qsort(v, n, sizeof(char*), ent_cmp);
+  if(n == 0) printf(" -");
+  for(size_t i = 0; i < n; ++i) { printf(" %s", v[i]); free(v[i]); }
+  free(v);
+  int more = 0;
+  for(int i = 0; i < 2; ++i) if(d.read(name, isDir)) ++more;
+  printf(" end=%d", more);
+}
+
 static void fs_end()
 {
   if(!fs_active) return;
   for(int h = 0; h < 8; ++h) { delete hnd[h]; hnd[h] = 0; }
+  for(int k = 0; k < 4; ++k) { delete dirs[k]; dirs[k] = 0; }
+  lib_active = false; fault_at = -1; fault_cnt = 0; shims_clear();
   if(fs_chrooted) {
     if(fchdir(old_root) != 0 || chroot(".") != 0) _exit(3);
     close(old_root); old_root = -1; fs_chrooted = false;
@@ -351,12 +446,13 @@ static bool fs_op(long c, vh::Tok& t)
 {
   const char* o = t.v[0];
   int h = (t.n > 1 && (!strcmp(o, "open") || !strcmp(o, "close") || !strcmp(o, "write") || !strcmp(o, "read") || !strcmp(o, "writebig") ||
-                       !strcmp(o, "readall") || !strcmp(o, "seek") || !strcmp(o, "size"))) ? atoi(t.v[1]) & 7 : -1;
+                       !strcmp(o, "readall") || !strcmp(o, "seek") || !strcmp(o, "size") || !strcmp(o, "flush"))) ? atoi(t.v[1]) & 7 : -1;
   bool handle_op = h >= 0 && strcmp(o, "open") && strcmp(o, "close");
   if(!fs_active) return false;
   if(fs_refuse) { printf("%ld ?nochroot\n", c); return true; }
   if(handle_op && !(hnd[h] && hnd[h]->isOpen())) { printf("%ld ?closed", c); fin(c); return true; }
-  if(handle_op && handle_is_dir(h)) { printf("%ld ?dir", c); fin(c); return true; }
+  // on a directory: readAll must report failure, flush succeeds; what the cursor calls answer is the file system's business
+  if(handle_op && strcmp(o, "readall") && strcmp(o, "flush") && handle_is_dir(h)) { printf("%ld ?dir", c); fin(c); return true; }
   if(handle_op) probe_fd("t", (int)(intptr_t)hnd[h]->fp);
   if(!strcmp(o, "mkd")) {
     printf("%ld %d", c, mkdir(arg(t.v[1]), 0755) == 0 ? 1 : 0);
@@ -407,6 +503,60 @@ static bool fs_op(long c, vh::Tok& t)
     printf("%ld %lld", c, (long long)hnd[h]->seek(atoll(t.v[2]), wh == 0 ? File::setPosition : wh == 1 ? File::currentPosition : File::endPosition));
   } else if(!strcmp(o, "size")) {
     printf("%ld %lld", c, (long long)hnd[h]->size());
+  } else if(!strcmp(o, "flush")) {
+    printf("%ld %d", c, hnd[h]->flush() ? 1 : 0);
+  } else if(!strcmp(o, "readallp")) {                 // the static File::readAll(path, data)
+    String p = arg(t.v[1]);
+    probe_now("s", p, true);
+    String d; bool ok = File::readAll(p, d);
+    printf("%ld %d ", c, ok ? 1 : 0); put_bytes((const unsigned char*)(const char*)d, d.length());
+  } else if(!strcmp(o, "fexists")) {
+    String p = arg(t.v[1]);
+    probe_now("s", p, false);
+    printf("%ld %d", c, File::exists(p) ? 1 : 0);
+  } else if(!strcmp(o, "abspath") || !strcmp(o, "cwd")) {
+    // the text without the prefix that leads to fs-<pid> (the model's root), and whether the kernel
+    // takes the answer and the argument to the same place (stat, lstat)
+    String p = !strcmp(o, "cwd") ? String() : arg(t.v[1]);
+    String r = !strcmp(o, "cwd") ? Directory::getCurrentDirectory() : File::getAbsolutePath(p);
+    const char* rs = r; size_t rl = r.length(), bl = strlen(base_dir);
+    if(!fs_chrooted && rl >= bl && !memcmp(rs, base_dir, bl) && (rl == bl || rs[bl] == '/')) { rs += bl; rl -= bl; }
+    printf("%ld ", c);
+    if(rl == 0) vh::puthex((const unsigned char*)"/", 1); else vh::puthex((const unsigned char*)rs, rl);
+    if(!strcmp(o, "abspath")) {
+      struct stat a, b;
+      int ra = stat(p, &a), rb = stat(r, &b);
+      printf(" %d", (ra != 0 && rb != 0) || (ra == 0 && rb == 0 && a.st_dev == b.st_dev && a.st_ino == b.st_ino) ? 1 : 0);
+      ra = lstat(p, &a); rb = lstat(r, &b);
+      printf(" %d", (ra != 0 && rb != 0) || (ra == 0 && rb == 0 && a.st_dev == b.st_dev && a.st_ino == b.st_ino) ? 1 : 0);
+    }
+  } else if(!strcmp(o, "chdir")) {
+    String p = arg(t.v[1]);
+    probe_now("s", p, true);
+    printf("%ld %d", c, Directory::change(p) ? 1 : 0);
+  } else if(!strcmp(o, "dlist")) {                    // a Directory of its own: open, read to the end, close
+    String p = arg(t.v[1]), pat = arg(t.v[2]);
+    probe_now("s", p.isEmpty() ? String(".") : p, true);
+    Directory d;
+    if(!d.open(p, pat, atoi(t.v[3]) != 0)) printf("%ld 0", c);
+    else { printf("%ld 1", c); read_all(d); d.close(); }
+  } else if(!strcmp(o, "dopen")) {
+    int k = atoi(t.v[1]) & 3;
+    if(!dirs[k]) dirs[k] = new Directory;
+    String p = arg(t.v[2]), pat = arg(t.v[3]);
+    probe_now("s", p.isEmpty() ? String(".") : p, true);
+    printf("%ld %d", c, dirs[k]->open(p, pat, atoi(t.v[4]) != 0) ? 1 : 0);
+  } else if(!strcmp(o, "dreadall")) {
+    int k = atoi(t.v[1]) & 3;
+    if(!dirs[k]) dirs[k] = new Directory;
+    printf("%ld r", c); read_all(*dirs[k]);
+  } else if(!strcmp(o, "dclose")) {
+    int k = atoi(t.v[1]) & 3;
+    if(dirs[k]) dirs[k]->close();
+    printf("%ld -", c);
+  } else if(!strcmp(o, "fault")) {
+    fault_at = atol(t.v[1]); fault_cnt = 0;
+    printf("%ld -", c);
   } else if(!strcmp(o, "funlink")) {
     String p = arg(t.v[1]);
     probe_now("s", p, false);
@@ -428,10 +578,16 @@ static bool fs_op(long c, vh::Tok& t)
     String p = arg(t.v[1]);
     probe_now("s", p, true);
     printf("%ld %d", c, Directory::exists(p) ? 1 : 0);
-  } else if(!strcmp(o, "create") || !strcmp(o, "dunlink")) {
+  } else if(!strcmp(o, "create") || !strcmp(o, "dunlink") || !strcmp(o, "purge")) {
     String p = arg(t.v[1]);
     if(!strcmp(o, "create")) probe_after("d", p, true); else probe_now("s", p, false);
-    bool r = !strcmp(o, "create") ? Directory::create(p) : Directory::unlink(p, atoi(t.v[2]) != 0);
+    bool r;
+    if(!strcmp(o, "create")) r = Directory::create(p);
+    else {
+      lib_active = true;
+      r = !strcmp(o, "dunlink") ? Directory::unlink(p, atoi(t.v[2]) != 0) : Directory::purge(p, atoi(t.v[2]) != 0);
+      lib_active = false; fault_at = -1; fault_cnt = 0; shims_clear();
+    }
     struct stat sb;                                   // the harness's own look, not the library's
     bool there = stat(p, &sb) == 0 && S_ISDIR(sb.st_mode);
     printf("%ld %d %d", c, r ? 1 : 0, there ? 1 : 0);
